@@ -47,6 +47,8 @@ PROP = dict(
 F = "/repo/aw_datastore/storages/sqlite.py"
 FM = "/repo/aw_datastore/storages/memory.py"
 MUTANTS = [
+    ('/repo/aw_datastore/storages/abstract.py', '        for event in events:\n            self.insert_one(bucket_id, event)', '        for i in range(len(events)):\n            self.insert_one(bucket_id, events[i])', False),   # the same loop written over indices: no alarm
+    ('/repo/aw_datastore/storages/abstract.py', '        for event in events:\n            self.insert_one(bucket_id, event)', '        for ev in events:\n            stored = self.insert_one(bucket_id, ev)', False),   # renamed local, result bound: no alarm
     ('/repo/aw_datastore/storages/abstract.py', '        for event in events:\n            self.insert_one(bucket_id, event)', '        for event in events[1:]:\n            self.insert_one(bucket_id, event)', True),   # inherited bulk insert drops the first event
     ('/repo/aw_datastore/storages/abstract.py', '        for event in events:\n            self.insert_one(bucket_id, event)', '        for event in reversed(events):\n            self.insert_one(bucket_id, event)', True),   # inherited bulk insert stores in reverse order
     (FM, '                event.id = max(int(e.id or 0) for e in self.db[bucket]) + 1', '                event.id = len(self.db[bucket])', True),   # ids reused after a delete
